@@ -11,7 +11,10 @@ import (
 //
 //	O1: a backend that is dispatched to is not inside an unhealthy window;
 //	O2: "no healthy backend" only if every backend is inside its window.
-func VerifC02Dispatch(strategy int, n int) {
+func VerifC02Dispatch(strategy int, n int, clientLen int) {
+	if clientLen == 0 {
+		clientLen = 3
+	}
 	lb := verifBareLB(strategy)
 	bs := verifPool(lb, strategy, n, true)
 	// pre-state window membership
@@ -24,7 +27,7 @@ func VerifC02Dispatch(strategy int, n int) {
 	var r = verifRequest("10.1.2.3:4711")
 	if strategy == 3 {
 		// any 3-byte client attribution: every FNV value modulo the eligible count
-		r.Header.Set("X-Forwarded-For", verifrt.String("client", 3))
+		r.Header.Set("X-Forwarded-For", verifrt.String("client", clientLen))
 	}
 
 	// shapes of the recorded defects (see known_findings.txt)
